@@ -212,6 +212,14 @@ DeepCopy ==
   /\ Log([a |-> "DeepCopy"])
   /\ UNCHANGED <<arch, mods, ctx, hooks, modes, saved, pc>>
 
+\* model.to(device): torch re-creates or swaps every parameter and buffer through its _apply machinery (for the quantized tensor
+\* subclasses: _to_copy on the inner tensors, then swap_tensors / a new Parameter). Only the CPU exists here, so the move is to
+\* the device the model is on: still the full _apply path for frozen (QTensor) weights.
+ToDevice ==
+  /\ pc = "quantized" /\ Bound /\ ctx = <<>>
+  /\ Log([a |-> "ToDevice"])
+  /\ UNCHANGED <<arch, mods, ctx, hooks, modes, saved, pc>>
+
 \* calls of the tensor-level library (quantize_weight, quantize_activation, absmax_scale) on float tensors:
 \* read-only, whether or not a calibration context is open
 LibCall ==
@@ -229,9 +237,9 @@ ForeignBatch ==
 ActionsOf(f) ==
   CASE f = "calib"  -> {"Quantize", "EnterCalib", "ReEnterCalib", "CalibBatch", "ExitCalib", "Forward", "RaiseIn"}
     [] f = "serial" -> {"Quantize", "EnterCalib", "CalibBatch", "ExitCalib", "Freeze", "Save", "Load", "Forward"}
-    [] f = "freeze" -> {"Quantize", "EnterCalib", "CalibBatch", "ExitCalib", "Freeze", "DeepCopy", "Forward"}
+    [] f = "freeze" -> {"Quantize", "EnterCalib", "CalibBatch", "ExitCalib", "Freeze", "DeepCopy", "ToDevice", "Forward"}
     [] f = "train"  -> {"Quantize", "OptStep", "Forward", "Freeze"}
-    [] OTHER        -> {"Quantize", "EnterCalib", "ReEnterCalib", "CalibBatch", "ExitCalib", "Forward", "RaiseIn", "Freeze", "Save", "Load", "DeepCopy", "OptStep", "LibCall", "ForeignBatch"}
+    [] OTHER        -> {"Quantize", "EnterCalib", "ReEnterCalib", "CalibBatch", "ExitCalib", "Forward", "RaiseIn", "Freeze", "Save", "Load", "DeepCopy", "ToDevice", "OptStep", "LibCall", "ForeignBatch"}
 On(a) == a \in ActionsOf(Focus)
 
 ActQuantize   == \E w \in WQs, a \in AQs, f \in Filters : Quantize(w, a, f)
@@ -244,6 +252,7 @@ ActExitCalib  == On("ExitCalib") /\ ExitCalib
 ActFreeze     == On("Freeze") /\ Freeze
 ActOptStep    == On("OptStep") /\ OptStep
 ActDeepCopy   == On("DeepCopy") /\ DeepCopy
+ActToDevice   == On("ToDevice") /\ ToDevice
 ActLibCall    == On("LibCall") /\ LibCall
 ActForeign    == On("ForeignBatch") /\ ForeignBatch
 ActSave       == On("Save") /\ \E s \in {"none", "pickle", "weights_only", "safetensors"} : Save(s)
@@ -251,7 +260,7 @@ ActSave       == On("Save") /\ \E s \in {"none", "pickle", "weights_only", "safe
 ActLoad       == On("Load") /\ \E t \in {"default", "same", "requantize", "otherq"} : Load(t)
 
 Next == ActQuantize \/ ActForward \/ ActEnterCalib \/ ActReEnter \/ ActCalibBatch \/ ActRaiseIn \/ ActExitCalib
-        \/ ActFreeze \/ ActOptStep \/ ActDeepCopy \/ ActSave \/ ActLoad \/ ActLibCall \/ ActForeign
+        \/ ActFreeze \/ ActOptStep \/ ActDeepCopy \/ ActToDevice \/ ActSave \/ ActLoad \/ ActLibCall \/ ActForeign
 
 (* ---- abstract properties ------------------------------------------------------------------------------ *)
 \* C08: exactly the eligible, selected modules are swapped; the others are untouched
@@ -259,7 +268,8 @@ SwapExactlyEligible ==
   (pc = "quantized" /\ Len(prog) >= 1 /\ prog[1].a = "Quantize") =>
      \A i \in 1..Len(mods) :
         mods[i].q <=> (Selected(prog[1].filter, i, Len(mods)) /\ Quantizable(arch[i], prog[1].aq))
-\* C09: freeze does not change what inference computes; freezing twice changes nothing
+\* C09: freeze does not change what inference computes; freezing twice changes nothing; neither do moves and copies
+MovePreservesDenotation == [][(Len(prog') = Len(prog) + 1 /\ prog'[Len(prog')].a \in {"ToDevice", "DeepCopy"}) => Denotation' = Denotation]_vars
 FreezePreservesDenotation == [][(\E n \in 1..1 : Len(prog') = Len(prog) + 1 /\ prog'[Len(prog')].a = "Freeze") => Denotation' = Denotation]_vars
 FrozenNeverStale == \A i \in 1..Len(mods) : mods[i].frozen => (mods[i].ftok[1] <= mods[i].wver)
 \* C11: until frozen every forward uses the current float weights; frozen weights are never updated
@@ -284,7 +294,7 @@ StreamlineKeepsConsumers ==
        (Len(prog') = Len(prog) + 1 /\ prog'[Len(prog')] = [a |-> "CalibBatch", batch |-> b] /\ Streamlining) =>
           \A i \in 1..Len(mods) :
              (mods[i].q /\ mods[i].aq = "qint8" /\ i < Len(mods) /\ mods[i + 1].kind = "Other") => mods'[i].aq = "qint8"]_vars
-InferencePure == [][(Len(prog') = Len(prog) + 1 /\ prog'[Len(prog')].a \in {"Forward", "DeepCopy", "Save", "LibCall", "ForeignBatch"}) => mods' = mods]_vars
+InferencePure == [][(Len(prog') = Len(prog) + 1 /\ prog'[Len(prog')].a \in {"Forward", "DeepCopy", "ToDevice", "Save", "LibCall", "ForeignBatch"}) => mods' = mods]_vars
 \* C10: a load restores the denotation that was saved
 RoundTripDenotation ==
   [][(Len(prog') = Len(prog) + 1 /\ prog'[Len(prog')].a = "Load") => mods' = saved.mods]_vars
